@@ -90,6 +90,23 @@ def postcondition(obj, sch):
             pw = getattr(sp, 'wire', None)
             if pw is not None and pw is not w:
                 bad.append('wire %s: a net touches pin %s.%s which belongs to wire %s' % (w.name, getattr(so, 'name', '?'), sp.name, pw.name))
+    # (d) geometry of the pins: on one symbol, input pins attached to different wires (and output pins likewise) sit at
+    #     different points -- otherwise the figure drawn for one wire touches a pin of another wire
+    for s in real:
+        o = s.obj
+        if not isinstance(o, py4hw.Logic): continue
+        for kind, ports, getter in (('input', getattr(o, 'inPorts', []), 'getPortSinkPos'), ('output', getattr(o, 'outPorts', []), 'getPortSourcePos')):
+            seen_at = {}
+            for p in ports:
+                if p.wire is None: continue
+                try:
+                    pos = tuple(getattr(s, getter)(p))
+                except Exception:
+                    continue
+                other = seen_at.get(pos)
+                if other is not None and other.wire is not p.wire:
+                    bad.append('symbol %s: %s pins %s (wire %s) and %s (wire %s) are drawn at the same point %r' % (getattr(o, 'name', '?'), kind, other.name, other.wire.name, p.name, p.wire.name, pos))
+                seen_at.setdefault(pos, p)
     return bad
 
 
@@ -214,7 +231,37 @@ def targeted(**kw):
         y1 = t.wire('y1', 4); y2 = t.wire('y2', 4)
         py4hw.Not(t, 'm1', a, y1); py4hw.Not(t, 'm2', y1, y2)
         z = t.wire('z', 4); py4hw.And(t, 'and3', [ra, rb, y2], z); py4hw.Buf(t, 'o', z, r)
-    for nm, bld in (('multi-output-child-far-reader', multi_out_far), ('one-wire-two-pins-of-a-child', same_wire_two_pins), ('fan-out-4', fanout),
+    class Bank(py4hw.Logic):
+        # k independent lanes (a register bank or a buffer stage)
+        def __init__(self, parent, name, ins, outs, registered):
+            super().__init__(parent, name)
+            for i, (a, r) in enumerate(zip(ins, outs)):
+                a = self.addIn('i%d' % i, a); r = self.addOut('o%d' % i, r)
+                (py4hw.Reg if registered else py4hw.Buf)(self, 'u%d' % i, a, r)
+    def ring(k, state_first):
+        # k parallel wires between one pair of instances, drawn forwards or as feedback depending on the instantiation order
+        def build(t, s):
+            ins = [s.wire('a%d' % i, 4) for i in range(k)]; outs = [s.wire('q%d' % i, 4) for i in range(k)]
+            for i in range(k): t.addIn('a%d' % i, ins[i]); t.addOut('q%d' % i, outs[i])
+            x = [t.wire('x%d' % i, 4) for i in range(k)]; sx = [t.wire('s%d' % i, 4) for i in range(k)]; d = [t.wire('d%d' % i, 4) for i in range(k)]
+            def state(): Bank(t, 'state', d, x, True)
+            def rest():
+                Bank(t, 'stage', x, sx, False)
+                for i in range(k): py4hw.Add(t, 'add%d' % i, sx[i], ins[i], d[i])
+            (state(), rest()) if state_first else (rest(), state())
+            for i in range(k): py4hw.Buf(t, 'ob%d' % i, x[i], outs[i])
+        return build
+    def nary(cls, n):
+        # an n-input gate with n distinct input wires: every input pin its own position
+        def build(t, s):
+            ins = [s.wire('i%d' % i, 2) for i in range(n)]; r = s.wire('r', 2)
+            for i in range(n): t.addIn('i%d' % i, ins[i])
+            t.addOut('r', r)
+            getattr(py4hw, cls)(t, 'g', ins, r)
+        return build
+    extra = [('ring-%d-lanes-%s' % (k, 'state-first' if sf else 'state-last'), ring(k, sf)) for k in (2, 3) for sf in (True, False)]
+    extra += [('%s-%d-inputs' % (c, n), nary(c, n)) for c in ('And', 'Or', 'Nor', 'Xor', 'Nand') if hasattr(py4hw, c) for n in (3, 4)]
+    for nm, bld in tuple(extra) + (('multi-output-child-far-reader', multi_out_far), ('one-wire-two-pins-of-a-child', same_wire_two_pins), ('fan-out-4', fanout),
                     ('register-feedback-loop', reg_loop), ('two-wires-between-one-pair-far', two_wires_same_pair_far)):
         try:
             top = mk(bld)
